@@ -26,11 +26,19 @@ type concEnv struct {
 func newConcEnv() *concEnv {
 	fqs := bt.NewFeeQuotes("m")
 	fq, _ := fqs.Quote("m")
+	// the stored standard fee is one a caller built without filling in Fee.FeeType (as in the
+	// FeeQuote documentation example): readers must not need to repair it
+	fq.AddQuote(bt.FeeTypeStandard, feeVal(7))
 	return &concEnv{fqs, fq}
 }
 
+// feeVal builds a distinct fee; odd values leave Fee.FeeType empty, even ones fill it in.
 func feeVal(v int) *bt.Fee {
-	return &bt.Fee{FeeType: bt.FeeTypeStandard, MiningFee: bt.FeeUnit{Satoshis: v, Bytes: 1000}, RelayFee: bt.FeeUnit{Satoshis: v, Bytes: 1000}}
+	f := &bt.Fee{MiningFee: bt.FeeUnit{Satoshis: v, Bytes: 1000}, RelayFee: bt.FeeUnit{Satoshis: v, Bytes: 1000}}
+	if v%2 == 0 {
+		f.FeeType = bt.FeeTypeStandard
+	}
+	return f
 }
 
 var concMethods = map[string]func(e *concEnv, v int) interface{}{
@@ -124,7 +132,7 @@ func concCmd(args []string) error {
 		e := newConcEnv()
 		var wg sync.WaitGroup
 		var mu sync.Mutex
-		written := map[int]bool{5: true} // the default quote
+		written := map[int]bool{5: true, 7: true} // the default quote and the one newConcEnv stores
 		var reads []int
 		for g := 0; g < *goroutines; g++ {
 			wg.Add(1)
